@@ -122,6 +122,10 @@ type DocOp struct {
 	Params     map[string]bool // "in:name" -> required
 	HasBody    bool
 	Codes      map[string]bool
+	// Security: the alternatives the operation documents, each the sorted names of the schemes it requires;
+	// nil = no security member. Declared: every scheme name the document declares.
+	Security [][]string
+	Declared map[string]bool
 }
 
 // C07 judges the OpenAPI documents of one design. mounted: service -> (verb, pattern) pairs
@@ -308,6 +312,75 @@ func C07(sp *spec.Spec, genDir string, mounted map[string][][2]string) *Verdict 
 	return v
 }
 
+// checkOpSecurity: "the same security schemes". The documents name schemes after kind and location, not after the
+// design, so names are not compared: every scheme an operation requires must be DECLARED by the document, and the
+// operation must list as many alternatives, each with as many schemes, as the method's effective requirements
+// (distinct requirements only: the design may repeat one).
+func checkOpSecurity(sp *spec.Spec, sv *spec.Service, m *spec.Method, op *DocOp, docName string, v *Verdict) {
+	for _, alt := range op.Security {
+		for _, n := range alt {
+			if !op.Declared[n] {
+				v.add("security-scheme-required-but-not-declared:"+docName, "%s %s requires scheme %q which the document does not declare (declared: %v)", op.Verb, op.Path, n, keysOf(op.Declared))
+			}
+		}
+	}
+	var want []int
+	seen := map[string]bool{}
+	for _, rq := range sp.EffectiveSecurity(sv, m) {
+		ss := append([]string(nil), rq.Schemes...)
+		sort.Strings(ss)
+		sc := append([]string(nil), rq.Scopes...)
+		sort.Strings(sc)
+		k := strings.Join(ss, ",") + "|" + strings.Join(sc, ",")
+		if seen[k] {
+			continue
+		}
+		seen[k] = true
+		distinct := map[string]bool{}
+		for _, n := range rq.Schemes {
+			distinct[n] = true
+		}
+		want = append(want, len(distinct))
+	}
+	var got []int
+	gseen := map[string]bool{}
+	for _, alt := range op.Security {
+		k := strings.Join(alt, ",")
+		if gseen[k] {
+			continue
+		}
+		gseen[k] = true
+		got = append(got, len(alt))
+	}
+	sort.Ints(want)
+	sort.Ints(got)
+	switch {
+	case len(want) == 0 && len(got) > 0:
+		v.add("security-documented-for-unsecured-method:"+docName, "%s %s documents security %v, the method has no requirement", op.Verb, op.Path, op.Security)
+	case len(want) > 0 && len(got) == 0:
+		v.add("security-not-documented:"+docName, "%s %s documents no security, the method has %d requirement(s)", op.Verb, op.Path, len(want))
+	case len(got) > len(want):
+		v.add("security-more-alternatives-documented:"+docName, "%s %s documents %d alternative requirement(s) %v, the design gives %d", op.Verb, op.Path, len(got), op.Security, len(want))
+	}
+	// scopes make design alternatives distinct that the document may legitimately fold (same schemes): fewer
+	// documented alternatives are judged only through the number of distinct scheme SETS
+	wantSets := map[string]bool{}
+	for _, rq := range sp.EffectiveSecurity(sv, m) {
+		ss := append([]string(nil), rq.Schemes...)
+		sort.Strings(ss)
+		wantSets[strings.Join(ss, ",")] = true
+	}
+	if len(got) > 0 && len(got) < len(wantSets) {
+		v.add("security-alternatives-missing:"+docName, "%s %s documents %d alternative requirement(s), the design has %d distinct scheme sets", op.Verb, op.Path, len(got), len(wantSets))
+	}
+	for i := range got {
+		if len(want) == len(got) && got[i] != want[i] {
+			v.add("security-scheme-count-per-requirement:"+docName, "%s %s documents requirements of %v schemes, the design of %v", op.Verb, op.Path, got, want)
+			break
+		}
+	}
+}
+
 var tmplVarRe = regexp.MustCompile(`\{[^}]*\}`)
 
 // claimKey identifies a route up to the names of its path parameters ("/x/{a}" and "/x/{b}" serve the same requests).
@@ -413,6 +486,26 @@ func opsOf3(doc *openapi3.T) map[string]*DocOp {
 					d.Codes[code] = true
 				}
 			}
+			d.Declared = map[string]bool{}
+			if doc.Components != nil {
+				for n := range doc.Components.SecuritySchemes {
+					d.Declared[n] = true
+				}
+			}
+			sec := op.Security
+			if sec == nil {
+				sec = &doc.Security
+			}
+			if sec != nil {
+				for _, alt := range *sec {
+					var names []string
+					for n := range alt {
+						names = append(names, n)
+					}
+					sort.Strings(names)
+					d.Security = append(d.Security, names)
+				}
+			}
 			out[verb+" "+normPath(p)] = d
 		}
 	}
@@ -434,6 +527,24 @@ func opsOf2(doc *openapi2.T) map[string]*DocOp {
 			}
 			for code := range op.Responses {
 				d.Codes[code] = true
+			}
+			d.Declared = map[string]bool{}
+			for n := range doc.SecurityDefinitions {
+				d.Declared[n] = true
+			}
+			sec := op.Security
+			if sec == nil {
+				sec = &doc.Security
+			}
+			if sec != nil {
+				for _, alt := range *sec {
+					var names []string
+					for n := range alt {
+						names = append(names, n)
+					}
+					sort.Strings(names)
+					d.Security = append(d.Security, names)
+				}
 			}
 			out[verb+" "+normPath(base+p)] = d
 		}
@@ -500,6 +611,7 @@ func swagger2Rules(doc *openapi2.T, raw []byte, v *Verdict) {
 
 // checkOp compares one documented operation with the design.
 func checkOp(sp *spec.Spec, sv *spec.Service, m *spec.Method, op *DocOp, docName string, v *Verdict) {
+	checkOpSecurity(sp, sv, m, op, docName, v)
 	h := m.HTTP
 	prt, _ := sp.Resolve(payloadTypeOf(m))
 	isObj := prt != nil && prt.Kind == spec.Object
